@@ -240,9 +240,8 @@ def rule_weights_nonneg(repo, rep):
     cmps = guards.path_cmps(f.node, n)
     want = Cmp(Lin({('n', 'obj'): 1, ('n', 'best_obj'): -1}), '<')
     blk = getattr(astutil.parents(f.node).get(n), 'body', [])
-    together = any(isinstance(s, ast.Assign) and
-                   ast.unparse(s.targets[0]) == 'best_obj' and
-                   ast.unparse(s.value) == 'obj' for s in blk)
+    together = any(t_ == 'best_obj' and ast.unparse(v_) == 'obj'
+                   for s in blk for (t_, v_) in astutil.assign_pairs(s))
     if want in cmps and together:
       rep.derived(Rg, 'scml._BaseSCML._fit:%s' % best, site(f, n))
     elif Cmp(Lin({('n', 'obj'): 1, ('n', 'best_obj'): -1}), '>') in cmps:
